@@ -272,9 +272,9 @@ func (w *world) drain() (map[string][]trace.Ev, error) {
 			var ev trace.Ev
 			switch {
 			case kind == "message" && len(arr) == 3:
-				ev = trace.Ev{"kind": "message", "pat": "", "ch": arr[1], "msg": arr[2]}
+				ev = trace.Ev{"kind": "message", "pat": "", "ch": aliasOf(arr[1]), "msg": arr[2]}
 			case kind == "pmessage" && len(arr) == 4:
-				ev = trace.Ev{"kind": "pmessage", "pat": arr[1], "ch": arr[2], "msg": arr[3]}
+				ev = trace.Ev{"kind": "pmessage", "pat": arr[1], "ch": aliasOf(arr[2]), "msg": arr[3]}
 			default:
 				return nil, protoErr(fmt.Sprintf("unexpected push on %s: %v", name, x))
 			}
@@ -375,7 +375,7 @@ func (w *world) exec(st step) error {
 	case "pub":
 		w.nmsg++
 		msg := fmt.Sprintf("m%d", w.nmsg)
-		x, err := w.ctl[st.M-1].do("publish", st.Ch, msg)
+		x, err := w.ctl[st.M-1].do("publish", realName(st.Ch), msg)
 		if err != nil {
 			return err
 		}
@@ -440,7 +440,30 @@ func envInt(name string, def int) int {
 }
 
 var channels = []string{"a", "ab", "b"}
-var patterns = []string{"a*", "*", "ab"}
+var patterns = []string{"a*", "*", "ab", "b?"}
+
+// channels that are only published to (nobody subscribes to them by name; patterns match them).  "b-e" stands for a channel
+// whose second character is not ASCII: the trace and the specification's match table use the alias, the wire the real name.
+var probeOnly = []string{"bc", "b-e"}
+var alias = map[string]string{"b-e": "b\u00e9"}
+
+func realName(ch string) string {
+	if r, ok := alias[ch]; ok {
+		return r
+	}
+	return ch
+}
+
+func aliasOf(x any) any {
+	if s, ok := x.(string); ok {
+		for a, r := range alias {
+			if s == r {
+				return a
+			}
+		}
+	}
+	return x
+}
 
 func probes(rng *rand.Rand, full bool) []step {
 	var out []step
@@ -450,6 +473,9 @@ func probes(rng *rand.Rand, full bool) []step {
 		} else {
 			out = append(out, step{Op: "pub", M: 1 + rng.Intn(2), Ch: ch})
 		}
+	}
+	for _, ch := range probeOnly {
+		out = append(out, step{Op: "pub", M: 1 + rng.Intn(2), Ch: ch})
 	}
 	for m := 1; m <= 2; m++ {
 		if !full && rng.Intn(2) == 0 {
@@ -536,6 +562,9 @@ func TestPubSub(t *testing.T) {
 		}
 		f.Close()
 	}
+	// a pattern of single-character wildcards only, next to the catch-all, on both members
+	programs = append(programs, append([]step{{Op: "sub", C: "c1", Pat: true, Name: "b?"}, {Op: "sub", C: "c3", Pat: true, Name: "b?"},
+		{Op: "sub", C: "c2", Pat: true, Name: "*"}, {Op: "sub", C: "c2", Name: "b"}}, probes(rng, true)...))
 	for i := 0; i < envInt("VERIF_PS_RANDOM", 0); i++ {
 		programs = append(programs, append(randomProgram(rng, envInt("VERIF_PS_RANDOM_LEN", 30)), probes(rng, true)...))
 	}
